@@ -7,7 +7,10 @@ traced value ("D"); every other parameter is bound to `U` (some valid value: X, 
 X, y, p and defaults otherwise.  The result is the ordered list of abstract actions applied to p:
 
   CheckFitted | CheckY | CheckX nf cats | CheckArray | CheckLen | CheckXy          validators (utils.check_*)
-  ToArray | Cast | Ravel | Arith | ShapeOf needs_array                         transparent conversions / shape reads
+  NeedsArray what                       an ndarray attribute (.ravel(), .astype(), .shape) read off the argument
+                                        as passed: AttributeError for a list / tuple, harmless for an ndarray
+  (np.array(p), arithmetic, len(p), np.ones_like(p) accept any array-like and validate nothing: no action; their
+   result is tracked as "the same data, now an ndarray")
   Use what                                                                     any other read (terminal)
   IfUnfitted [..] | IfFitted [..] | MaybeSkip [..] | TryVE [..]                 structure
 
@@ -29,7 +32,15 @@ FITTING = ('fit', 'gridsearch', 'fit_quantile')
 ROOT = 'GAM'
 MAX_DEPTH = 4
 
-D, U, S, N = 'D', 'U', 'S', 'N'     # traced value / some valid non-None value / alias of self / unknown (may be None)
+D, A, U, S, N, L = 'D', 'A', 'U', 'S', 'N', 'L'
+# L: a value that only carries the *length* of the traced argument (len(p), p.shape, np.ones_like(p), np.ones(p.shape[0]));
+#    comparing lengths of p with L is vacuous (no CheckLen is emitted), reading L is not a read of p's content
+# D: the traced argument as passed (any container); A: an ndarray holding the same data (np.array(D), D.ravel(), D / w,
+# the return value of a validator); U: some valid non-None value; S: alias of self; N: unknown (may be None)
+
+
+def isD(v):
+    return v == D or v == A
 
 
 class Unsupported(Exception):
@@ -45,7 +56,7 @@ def isC(v):
 
 
 def has_D(v):
-    if v == D:
+    if v == D or v == A:
         return True
     if isinstance(v, tuple) and v[0] == 'T':
         return any(has_D(x) for x in v[1])
@@ -205,6 +216,9 @@ class Tracer:
                 return True
             if not isinstance(n, ast.Call):
                 continue
+            sc0 = self.self_call(n, {}, origin)
+            if depth == 0 and sc0 is not None and sc0[1] is None and self.guarded(sc0[0]):
+                return True
             hits = [i for i, a in enumerate(n.args) if isinstance(a, ast.Name) and a.id == pname]
             khits = [k.arg for k in n.keywords if isinstance(k.value, ast.Name) and k.value.id == pname and k.arg]
             if not hits and not khits:
@@ -251,7 +265,8 @@ class Tracer:
             return [], env.get(node.id, U), False
         if isinstance(node, ast.Constant):
             return [], C(node.value), False
-        if not self.mentions(node, env):
+        if not self.mentions(node, env) and not any(
+                isinstance(x, ast.Name) and env.get(x.id) == L for x in ast.walk(node)):
             # no traced data inside: only the fitted guard of self-calls and aliases of self matter
             if isinstance(node, ast.Call) and isinstance(node.func, ast.Name) and node.func.id == 'deepcopy' \
                     and len(node.args) == 1 and isinstance(node.args[0], ast.Name) and node.args[0].id == 'self':
@@ -290,8 +305,8 @@ class Tracer:
             a2, v2, d2 = self.ev(node.right, env, ctx)
             if d2:
                 return a1 + a2, U, True
-            if v1 == D or v2 == D:
-                return a1 + a2 + [('Arith',)], D, False
+            if isD(v1) or isD(v2):
+                return a1 + a2, A, False        # numpy arithmetic accepts any array-like and returns an ndarray
             if has_D(v1) or has_D(v2):
                 return a1 + a2 + [('Use', short(node))], U, True
             return a1 + a2, U, False
@@ -301,8 +316,8 @@ class Tracer:
             a, v, dead = self.ev(node.value, env, ctx)
             if dead:
                 return a, U, True
-            if v == D:
-                return a + [('ShapeOf', True)], U, False
+            if isD(v):
+                return a + ([('NeedsArray', short(node))] if v == D else []), L, False
         if isinstance(node, ast.Subscript) and isinstance(node.value, ast.Attribute) and node.value.attr == 'shape' \
                 and not self.mentions(node.slice, env):
             return self.ev(node.value, env, ctx)
@@ -324,8 +339,9 @@ class Tracer:
                     direct[0] = True
                 return False
             if isinstance(n, ast.Attribute) and n.attr == 'shape' and isinstance(n.value, ast.Name) \
-                    and env.get(n.value.id, U) == D:
-                acts.append(('ShapeOf', True))
+                    and isD(env.get(n.value.id, U)):
+                if env.get(n.value.id) == D:
+                    acts.append(('NeedsArray', short(n)))
                 return False
             if isinstance(n, ast.Name) and has_D(env.get(n.id, U)):
                 direct[0] = True
@@ -381,15 +397,15 @@ class Tracer:
             if f.id in ('check_lengths', 'check_X_y'):
                 if kw:
                     raise Unsupported('keywords in %s' % short(node))
-                if any(v == D for v in pos):
+                if any(isD(v) for v in pos) and any(not isD(v) and v != L for v in pos):
                     acts.append(('CheckLen',) if f.id == 'check_lengths' else ('CheckXy',))
-                elif any(has_D(v) for v in pos):
+                elif any(has_D(v) and not isD(v) for v in pos):
                     raise Unsupported('tuple passed to %s' % f.id)
                 return acts, U, False
             if not pos:
                 raise Unsupported('validator without positional subject: %s' % short(node))
             subj = pos[0]
-            if has_D(subj) and subj != D:
+            if has_D(subj) and not isD(subj):
                 raise Unsupported('tuple passed to %s' % f.id)
             if any(has_D(v) for v in pos[1:]) or any(has_D(v) for v in kw.values()):
                 return acts + [('Use', short(node))], U, True
@@ -408,9 +424,9 @@ class Tracer:
                 if set(kwn) - {'verbose', 'name', 'ndim'} or len(pos) != 1:
                     raise Unsupported('check_array call shape: %s' % short(node))
                 act = ('CheckArray',)
-            if subj == D:
-                return acts + [act], D, False
-            return acts, U, False
+            if isD(subj):
+                return acts + [act], A, False
+            return acts, (L if subj == L else U), False
         # ---- self / super / alias method calls
         sc = self.self_call(node, env, ctx['fn_cls'])
         if sc is not None:
@@ -442,8 +458,8 @@ class Tracer:
             a, v, dead = self.ev(node.args[0], env, ctx)
             if dead:
                 return a, U, True
-            if v == D:
-                return a + [('ShapeOf', False)], U, False
+            if isD(v) or v == L:
+                return a, L, False
             if has_D(v):
                 return a + [('Use', short(node))], U, True
             return a, U, False
@@ -452,19 +468,27 @@ class Tracer:
             a, v, dead = self.ev(f.value, env, ctx)
             if dead:
                 return a, U, True
-            if v == D and not self.mentions(node.args, env):
-                return a + [('Cast',) if f.attr == 'astype' else ('Ravel',)], D, False
+            if isD(v) and not self.mentions(node.args, env):
+                return a + ([('NeedsArray', short(node))] if v == D else []), A, False
             if not has_D(v) and not self.mentions(node.args, env):
-                return a, U, False
+                return a, (L if v == L else U), False
             return a + [('Use', short(node))], U, True
         if isinstance(f, ast.Attribute) and isinstance(f.value, ast.Name) and f.value.id == 'np' \
                 and f.attr in ('array', 'asarray') and len(node.args) == 1 and not node.keywords:
             a, v, dead = self.ev(node.args[0], env, ctx)
             if dead:
                 return a, U, True
-            if v == D:
-                return a + [('ToArray',)], D, False
+            if isD(v):
+                return a, A, False
+            if not has_D(v):
+                return a, (L if v == L else U), False
             return a + [('Use', short(node))], U, True
+        # ---- np.ones(p.shape[0]) and friends: only the length of the traced value is read
+        if isinstance(f, ast.Attribute) and isinstance(f.value, ast.Name) and f.value.id == 'np' \
+                and f.attr in ('ones', 'zeros', 'empty', 'arange') and len(node.args) == 1 and not node.keywords:
+            a, v, dead = self.ev(node.args[0], env, ctx)
+            if not dead and v == L:
+                return a, L, False
         # ---- anything else touching the traced value
         return self.fallback(node, env, ctx)
 
@@ -642,7 +666,7 @@ class Tracer:
                 and isinstance(t.left, ast.Name) and isinstance(t.comparators[0], ast.Constant) and t.comparators[0].value is None:
             v = env.get(t.left.id, U)
             isnone = None
-            if v == D or v == S or v == U or (isinstance(v, tuple) and v[0] == 'T'):
+            if isD(v) or v in (S, U, L) or (isinstance(v, tuple) and v[0] == 'T'):
                 isnone = False
             elif isC(v):
                 isnone = v[1] is None
@@ -799,10 +823,10 @@ def qs(s):
 
 def act_coq(a):
     t = a[0]
-    if t == 'ShapeOf':
-        return '(ShapeOf %s)' % ('true' if a[1] else 'false')
-    if t in ('CheckFitted', 'CheckY', 'CheckArray', 'CheckLen', 'CheckXy', 'ToArray', 'Cast', 'Ravel', 'Arith'):
+    if t in ('CheckFitted', 'CheckY', 'CheckArray', 'CheckLen', 'CheckXy'):
         return t
+    if t == 'NeedsArray':
+        return '(NeedsArray %s)' % qs(a[1])
     if t == 'CheckX':
         return '(CheckX %s %s)' % ('true' if a[1] else 'false', 'true' if a[2] else 'false')
     if t == 'Use':
